@@ -6,7 +6,7 @@ CONSTANTS Principals = {"A"}
           BadCodes = {"bad"}
           BoomCodes = {"boom"}
           Strategies = {"S1", "S2"}
-          MaxReq = 9
+          MaxReq = 8
           TempNames = {}
           GenPNames = {}
           FilterOnOwner = TRUE
